@@ -83,16 +83,26 @@ def is_deep(c, thorough):
 def cases(tier):
     thorough = tier == "thorough"
     out = []
-    base = 2 if thorough else 1
-    for c in configs(thorough):
-        nsh = 4 if thorough else 1
-        for i in range(nsh):
-            out.append(dict(c, bound=base, shard=[i, nsh]))
-    for c in configs(thorough):
-        if is_deep(c, thorough):
-            nsh = 16 if thorough else 8
-            for i in range(nsh):
-                out.append(dict(c, bound=base + 1, shard=[i, nsh]))
+    if not thorough:
+        for c in configs(False):
+            out.append(dict(c, bound=1, shard=[0, 1]))
+        for c in configs(False):
+            if is_deep(c, False):
+                for i in range(8):
+                    out.append(dict(c, bound=2, shard=[i, 8]))
+    else:
+        # thorough: the full lattice with one deviation, a stated sub-lattice with two, four configurations with three
+        for c in configs(True):
+            out.append(dict(c, bound=1, shard=[0, 1]))
+        for c in configs(True):
+            if (c["rmse"] == 0.5 and c["N0"] in (2, 5)
+                    and (c["cv"], c["payoff"]) in (("none", "forward"), ("one", "forward"), ("none", "call2"))):
+                for i in range(4):
+                    out.append(dict(c, bound=2, shard=[i, 4]))
+        for c in configs(True):
+            if is_deep(c, True) and c["rates"] == "given":
+                for i in range(16):
+                    out.append(dict(c, bound=3, shard=[i, 16]))
     # fixed-level variant; initial_level <= maximum_level (a configuration with initial_level > maximum_level is not a
     # meaningful multilevel configuration and is outside the alphabet)
     for (L0, Lmax) in ((0, 0), (0, 1), (1, 1), (2, 3), (1, 3)):
